@@ -327,3 +327,18 @@ Lemma tri_uniform_tiles : tri_tiles_ok tri_W gen_tri_templates = true.
 Proof. vm_compute. reflexivity. Qed.
 Lemma tet_uniform_tiles : forallb (fun c => tet_tiles_ok tet_W (tet_family c)) [0; 1; 2] = true.
 Proof. vm_compute. reflexivity. Qed.
+
+(* ------------------------------------------------------------------ tetrahedra: faces *)
+Require Import Proofs.C12_Face3Proofs.
+Lemma tet_face_edges_ok : face_edges_okb 4 gen_tet_rfacets gen_tet_redges = true.
+Proof. vm_compute. reflexivity. Qed.
+(* for each diagonal choice: the faces of the eight children are the four expected triangles of every parent face (once each)
+   plus interior faces shared by two children *)
+Lemma tet_trace3_ok : forallb (fun c => trace3_ok gen_tet_rfacets gen_tet_redges (tet_family c)) [0; 1; 2] = true.
+Proof. vm_compute. reflexivity. Qed.
+
+(* ------------------------------------------------------------------ hexahedra: faces *)
+Lemma hex_qface_edges_ok : qface_edges_okb 8 gen_hex_rfacets gen_hex_redges = true.
+Proof. vm_compute. reflexivity. Qed.
+Lemma hex_trace4_ok : trace4_ok gen_hex_rfacets gen_hex_redges gen_hex_templates = true.
+Proof. vm_compute. reflexivity. Qed.
